@@ -261,16 +261,92 @@ def local_uses(node, lid):
 
 # --------------------------------------------------------------------------- source-like rendering
 
+_CANON = None   # (names, inits, inlining budget) while show_canon is active
+_MAXDEPTH = None
+
+
+def canon_env(fn):
+    """Rename-independent names for the locals of a fn: `self`, P<i> for parameters, c<i> for closure parameters (index within their own
+    closure), b<i> for pattern bindings (index within their pattern); simple `let x = init` locals are *inlined* (replaced by their
+    initialiser), so introducing, renaming or removing such a local does not change the rendering."""
+    env = getattr(fn, "_canon_env", None) if not isinstance(fn, dict) else None
+    if env is not None:
+        return env
+    names, inits = {}, {}
+    for i, p in enumerate(fn.params):
+        for j, (name, lid) in enumerate(pat_bindings(p["pat"])):
+            names[lid] = "self" if name == "self" else ("P%d" % i if j == 0 else "P%d_%d" % (i, j))
+    if fn.body is not None:
+        assigned = set()
+        for node in walk(fn.body):
+            if node.get("k") in ("assign", "assignop"):
+                l = node["l"]
+                while l.get("k") in ("field", "index", "unary"):
+                    l = l["e"]
+                if l.get("k") == "path" and l.get("res") == "local":
+                    assigned.add(l["id"])
+        for node, parents in walk_with_parents(fn.body):
+            k = node.get("k")
+            cdepth = sum(1 for p_ in parents if p_.get("k") == "closure")
+            if k == "let" and node.get("init") is not None and node["pat"].get("k") == "p_bind" and "sub" not in node["pat"] and node["pat"]["id"] not in assigned:
+                inits[node["pat"]["id"]] = node["init"]
+            elif k in ("let", "letx"):
+                for j, (_n, lid) in enumerate(pat_bindings(node["pat"])):
+                    names.setdefault(lid, "b%d" % j)
+            elif k == "match":
+                for arm in node["arms"]:
+                    for j, (_n, lid) in enumerate(pat_bindings(arm["pat"])):
+                        names.setdefault(lid, "b%d" % j)
+            elif k == "closure":
+                for i, p in enumerate(node.get("params", [])):
+                    for j, (_n, lid) in enumerate(pat_bindings(p)):
+                        nm = "c%d" % cdepth if i == 0 else "c%d.%d" % (cdepth, i)
+                        names.setdefault(lid, nm if j == 0 else "%s_%d" % (nm, j))
+    env = (names, inits)
+    try:
+        fn._canon_env = env
+    except AttributeError:
+        pass
+    return env
+
+
+def show_canon(fn, e, maxdepth=40, inline=6):
+    """`show` with rename-independent local names (see canon_env)."""
+    global _CANON, _MAXDEPTH
+    names, inits = canon_env(fn)
+    old, oldm = _CANON, _MAXDEPTH
+    _CANON = [names, inits, inline, set()]
+    _MAXDEPTH = maxdepth
+    try:
+        return show(e, 0, maxdepth)
+    finally:
+        _CANON, _MAXDEPTH = old, oldm
+
+
 def show(e, depth=0, maxdepth=12):
     """Compact source-like rendering of an expression (for reports and shape comparison)."""
     if e is None:
         return ""
-    if depth > maxdepth:
+    if depth > (_MAXDEPTH if _MAXDEPTH is not None else maxdepth):
         return "…"
     k = e.get("k")
     d = depth + 1
     if k == "path":
         if e.get("res") == "local":
+            if _CANON is not None:
+                lid = e.get("id")
+                if lid in _CANON[0]:
+                    return _CANON[0][lid]
+                if lid in _CANON[1] and _CANON[2] > 0 and lid not in _CANON[3]:
+                    _CANON[2] -= 1
+                    _CANON[3].add(lid)
+                    try:
+                        r = show(_CANON[1][lid], d, maxdepth)
+                    finally:
+                        _CANON[2] += 1
+                        _CANON[3].discard(lid)
+                    return r
+                return "v?"
             return e.get("name", "?")
         return last2(norm(e.get("def", "?")))
     if k == "lit":
@@ -350,6 +426,8 @@ def show_pat(p):
         return "_"
     if k == "p_bind":
         s = p["name"]
+        if _CANON is not None:
+            s = _CANON[0].get(p.get("id"), "v?")
         if "sub" in p:
             s += " @ " + show_pat(p["sub"])
         return s
@@ -377,7 +455,7 @@ def show_pat(p):
 
 class Fn:
     __slots__ = ("d", "def_", "crate", "unit", "kind", "file", "line", "parent", "body", "mir", "params",
-                 "impl_self", "impl_trait", "trait_item", "in_trait", "vis", "exported", "_cfg", "ret")
+                 "impl_self", "impl_trait", "trait_item", "in_trait", "vis", "exported", "_cfg", "ret", "_canon_env")
 
     def __init__(self, d, crate, unit):
         self.d = d
